@@ -186,3 +186,48 @@ pub fn start_txs(kind: ShapeKind, k: usize) -> Vec<TxSpec> {
     txs.pop();
     txs
 }
+
+
+/// A history whose free list (free + pending ids) sweeps slowly upwards through the capacity of
+/// one free-list page (123 ids at page size 1024) and of two, and back down: 170 page-sized
+/// values, then commits that delete 1-3 of them each, then commits that put them back. Every
+/// count around a page boundary of the free list is visited by some commit.
+pub fn freelist_boundary_history(seed: u64) -> HistoryCase {
+    let mut rng = crate::runner::Rng(seed);
+    let mut txs = vec![TxSpec {
+        kind: TxKind::Commit,
+        ops: vec![Op::GetOrCreate { b: 0, k: KeySel::Lit(b"v".to_vec()), kk: 2 }],
+    }];
+    let total: u16 = 150 + (seed % 60) as u16;
+    let mut fill = Vec::new();
+    let mut at = 0u16;
+    while at < total {
+        let n = (total - at).min(40) as u8;
+        fill.push(Op::PutRun { b: 0, base: vec![b'p'], start: at, step: 1, n, klen: 0, vlen: 900 });
+        at += n as u16;
+    }
+    txs.push(TxSpec { kind: TxKind::Commit, ops: fill });
+    // downwards: delete a few per commit (always the first remaining ones)
+    let mut left = total;
+    let mut deleted = 0u16;
+    while left > 8 {
+        let k = 1 + rng.below(3) as u8;
+        txs.push(TxSpec { kind: TxKind::Commit, ops: vec![Op::DeleteRun { b: 0, start: 0, n: k }] });
+        left = left.saturating_sub(k as u16);
+        deleted += k as u16;
+        if rng.chance(1, 40) {
+            txs.push(TxSpec { kind: TxKind::Reopen, ops: vec![] });
+        }
+    }
+    // upwards again: put them back a few per commit (the free list shrinks through the same counts)
+    let mut back = 0u16;
+    while back < deleted {
+        let k = 1 + rng.below(3) as u8;
+        txs.push(TxSpec { kind: TxKind::Commit, ops: vec![Op::PutRun { b: 0, base: vec![b'p'], start: back, step: 1, n: k, klen: 0, vlen: 900 }] });
+        back += k as u16;
+        if rng.chance(1, 40) {
+            txs.push(TxSpec { kind: TxKind::Reopen, ops: vec![] });
+        }
+    }
+    HistoryCase { cfg: Cfg { pagesize: 1024, num_pages: 32, strict: seed % 3 == 0, populate: false }, fresh_handles: false, txs, dance: 0 }
+}
